@@ -2,6 +2,7 @@ package rules
 
 import (
 	"fmt"
+	"go/token"
 	"strings"
 
 	"yv/internal/prog"
@@ -127,6 +128,18 @@ func init() {
 							}
 							// a slot created in this function by a constructor and inserted fresh is weighed on insertion
 							if c, isCall := prog.Strip(base).(*ssa.Call); isCall && prog.CallObj(c) != nil && strings.HasPrefix(prog.CallObj(c).Name(), "new") {
+								// … provided its liveness is settled before the insertion weighs it
+								for _, ic := range prog.CallsIn(fn) {
+									o := prog.CallObj(ic)
+									if o == nil || !strings.HasPrefix(o.Name(), "Insert") {
+										continue
+									}
+									for _, a := range ic.Common().Args {
+										if lf := prog.LoadedField(a); lf != nil && lf.Name() == "indexNode" && sameAccessPath(prog.FieldBase(a), base) && prog.MayPrecede(ic, t) {
+											sites = append(sites, site{t, base, true, f.Name() + " of a slot already inserted"})
+										}
+									}
+								}
 								continue
 							}
 							sites = append(sites, site{t, base, true, f.Name()})
@@ -279,6 +292,102 @@ func init() {
 			}
 			if n < 6 {
 				x.C.Vacuous(x.id()+" re-links", n, 6)
+			}
+		}})
+}
+
+// affine resolves v to base + k through integer additions/subtractions of constants.
+func affine(v ssa.Value) (ssa.Value, int64) {
+	v = prog.Strip(v)
+	if b, ok := v.(*ssa.BinOp); ok && (b.Op == token.ADD || b.Op == token.SUB) {
+		if c, isC := prog.IntConst(b.Y); isC {
+			base, k := affine(b.X)
+			if b.Op == token.SUB {
+				c = -c
+			}
+			return base, k + c
+		}
+		if c, isC := prog.IntConst(b.X); isC && b.Op == token.ADD {
+			base, k := affine(b.Y)
+			return base, k + c
+		}
+	}
+	return v, 0
+}
+
+func init() {
+	register(&Rule{ID: "IDX.pos", Min: 4, Text: "sibling insertion positions in the index tree: every method of index.Node that splices a child through insertAtInternal hands it the position its name promises — Insert…Before: exactly OffsetOfChild(reference); Insert…After: OffsetOfChild(reference)+1; InsertAt: exactly its offset parameter — and InsertAfterInternal writes the new child at children[OffsetOfChild(prev)+1]; the crdt tree's InsertAt-after-left-sibling computes OffsetOfChild(left)+1. An off-by-one here is invisible until two replicas reach the same structure through different orders of the same splits",
+		Run: func(x *Ctx) {
+			ins := x.P.FnObj("pkg/index.(*Node).insertAtInternal")
+			off := x.P.FnObj("pkg/index.(*Node).OffsetOfChild")
+			if ins == nil || off == nil {
+				x.C.Unresolved(x.id(), "index.Node.insertAtInternal / OffsetOfChild")
+				return
+			}
+			isOffCall := func(v ssa.Value) bool {
+				c, ok := prog.Strip(v).(*ssa.Call)
+				return ok && sameFunc(prog.CallObj(c), off)
+			}
+			n := 0
+			for _, fn := range x.P.FuncsIn("pkg/index") {
+				if o := fn.Origin(); o != nil && o != fn {
+					continue
+				}
+				for _, c := range callsToIn(fn, ins) {
+					n++
+					arg := paramArg(c, 1)
+					base, k := affine(arg)
+					name := fn.Name()
+					key := fmt.Sprintf("func=%s insert-position", prog.FnName(fn))
+					switch {
+					case strings.Contains(name, "Before"):
+						x.check(isOffCall(base) && k == 0, key+"=offset(reference)", x.pos(c), "inserts at the reference's own offset", fmt.Sprintf("%s inserts at offset(reference)%+d instead of offset(reference): the node lands on the wrong side of its reference", name, k))
+					case strings.Contains(name, "After"):
+						x.check(isOffCall(base) && k == 1, key+"=offset(reference)+1", x.pos(c), "inserts right after the reference", fmt.Sprintf("%s inserts at offset(reference)%+d instead of offset(reference)+1", name, k))
+					default:
+						pm, isP := base.(*ssa.Parameter)
+						x.check(isP && pm.Parent() == fn && k == 0, key+"=offset-parameter", x.pos(c), "inserts at the offset it was given", fmt.Sprintf("%s does not insert at the offset it was given (%+d)", name, k))
+					}
+				}
+			}
+			// InsertAfterInternal: n.children[offset+1] = newNode
+			if fn := x.fn("pkg/index.(*Node).InsertAfterInternal"); fn != nil {
+				ok := false
+				for _, b := range fn.Blocks {
+					for _, insn := range b.Instrs {
+						st, isSt := insn.(*ssa.Store)
+						if !isSt {
+							continue
+						}
+						ia, isIA := st.Addr.(*ssa.IndexAddr)
+						if !isIA || prog.Strip(st.Val) != ssa.Value(fn.Params[1]) {
+							continue
+						}
+						n++
+						base, k := affine(ia.Index)
+						ok = isOffCall(base) && k == 1
+					}
+				}
+				x.check(ok, "func="+prog.FnName(fn)+" writes-children[offset(prev)+1]", x.fpos(fn), "the new child is written right after prev", "InsertAfterInternal no longer writes the new child at children[OffsetOfChild(prev)+1]")
+			}
+			// crdt: index computed from the left sibling
+			nn := 0
+			for _, fn := range x.P.FuncsIn(crdtPkg) {
+				for _, c := range callsToIn(fn, off) {
+					for _, r := range *c.Value().Referrers() {
+						b, isB := r.(*ssa.BinOp)
+						if !isB || (b.Op != token.ADD && b.Op != token.SUB) {
+							continue
+						}
+						nn++
+						n++
+						_, k := affine(b)
+						x.check(k == 1, fmt.Sprintf("func=%s after-left-sibling#%d=offset(left)+1", prog.FnName(fn), nn), x.pos(c), "the position after the left sibling is its offset + 1", fmt.Sprintf("the position after the left sibling is computed as offset%+d", k))
+					}
+				}
+			}
+			if n < 4 {
+				x.C.Vacuous(x.id()+" sites", n, 4)
 			}
 		}})
 }
